@@ -8,7 +8,8 @@
      Scenario.occupancies_at_time_step, obstacles_by_role_and_type, obstacles_by_position_intervals,
      obstacle_states_at_time_step                        scenario/scenario.py:1046-1201
      Rectangle / Circle / Polygon / ShapeGroup.rotate_translate_local   geometry/shape.py:178-188, 298-312, 407-426, 515-534
-     occupancy_shape_from_state                          geometry/shape.py:561-632 (after fix)
+     occupancy_shape_from_state                          geometry/shape.py:555-632 (after fix)
+     PMState.orientation                                 scenario/state.py:383-392
    Part (i) is generic in the type [S] of states and [R] of regions; errors of the implementation are [Err]. *)
 From Coq Require Import QArith Qabs ZArith Bool List Qminmax.
 From CR Require Import Base.QMod Model.Interval Model.Transform Model.Shapes.
@@ -208,12 +209,48 @@ Section Place.
     rotate_translate_pts ctr o c s (rect_corners l w).
 End Place.
 
+(* ---- the attributes of a state that occupancy_shape_from_state reads (geometry/shape.py:555-632) *)
+Section FromState.
+  Variable tau : Q.
+  Variable fuel : nat.
+  Variables cosf sinf : Q -> Q.       (* math.cos / math.sin as shapely.affinity.rotate calls them *)
+  Variable atan2f : Q -> Q -> Q.      (* math.atan2 *)
+
+  (* state.orientation: the stored value; for point-mass states (PMState: the read-only property of state.py:383-392;
+     states without the attribute: TrajectoryPrediction._create_occupancy_set, prediction.py:395-398)
+     atan2(velocity_y, velocity).  [s_vec] = (velocity, velocity_y) *)
+  Definition heading (st : state) : option orientation :=
+    match s_ori st with
+    | Some o => Some o
+    | None => match s_vec st with Some v => Some (OExact (atan2f (py v) (px v))) | None => None end
+    end.
+  (* state.is_uncertain_position or state.is_uncertain_orientation *)
+  Definition is_uncertain (st : state) : bool :=
+    match s_pos st with Some (PRegion _) => true | _ => false end
+    || match heading st with Some (OItv _) => true | _ => false end.
+  (* the else-branch: shape.rotate_translate_local(state.position, state.orientation); a missing attribute is an
+     AttributeError *)
+  Definition occupancy_exact (sh : shape) (st : state) : res shape :=
+    match s_pos st, heading st with
+    | Some (PPoint p), Some (OExact th) => rotate_translate_local tau fuel p th (cosf th) (sinf th) sh
+    | _, _ => Err
+    end.
+End FromState.
+
 (* ================================================================== (iii) enclosure for uncertain states *)
 (* axis-aligned box as shapely's .bounds returns it *)
 Record box := { b_minx : Q; b_miny : Q; b_maxx : Q; b_maxy : Q }.
 Definition box_len (b : box) : Q := Qabs (b_maxx b - b_minx b).
 Definition box_wid (b : box) : Q := Qabs (b_maxy b - b_miny b).
 Definition box_mid (b : box) : pt := ((1 # 2) * (b_minx b + b_maxx b), (1 # 2) * (b_miny b + b_maxy b)).
+
+(* shapely's .bounds of a vertex chain: coordinate-wise min / max *)
+Definition bbox1 (p : pt) : box := {| b_minx := px p; b_miny := py p; b_maxx := px p; b_maxy := py p |}.
+Definition box_add (b : box) (p : pt) : box :=
+  {| b_minx := Qmin (b_minx b) (px p); b_miny := Qmin (b_miny b) (py p);
+     b_maxx := Qmax (b_maxx b) (px p); b_maxy := Qmax (b_maxy b) (py p) |}.
+Definition bbox (vs : list pt) : option box :=
+  match vs with [] => None | p :: r => Some (fold_left box_add r (bbox1 p)) end.
 
 (* values of the transcendental functions at the arguments the formula passes them (oracle inputs) *)
 Record enc_oracle := {
@@ -236,6 +273,18 @@ Inductive shape_meas :=
 Inductive pos_meas := PMExact (p : pt) | PMBox (ctr : pt) (rotated : box) | PMCirc (ctr : pt) (r : Q) | PMGroup.
 (* orientation: exact | interval *)
 Inductive ori_meas := OMExact (th : Q) | OMItv (J : itv).
+
+(* what the formula reads off a primitive shape, computed: Rectangle: bounds of its vertices ([co] [so] = cos / sin
+   of its orientation), rotated about its centre; Polygon: bounds of its vertices, rotated about its centroid *)
+Definition meas_prim (sh : shape) (co so : Q) : option shape_meas :=
+  match sh with
+  | Rect l w ctr o => option_map (fun b => SMBox b ctr) (bbox (rect_vertices l w ctr o co so))
+  | Poly vs => option_map (fun b => SMBox b (centroid vs)) (bbox vs)
+  | Circ r ctr => Some (SMCirc r ctr)
+  | Group _ => None
+  end.
+(* the orientation the formula uses, from the state *)
+Definition om_of (o : orientation) : ori_meas := match o with OExact th => OMExact th | OItv J => OMItv J end.
 
 Definition psi_of (om : ori_meas) : Q :=
   match om with OMItv J => lo J + (1 # 2) * (hi J - lo J) | OMExact th => th end.
